@@ -229,6 +229,10 @@ def run(ctx: core.Ctx, only=None) -> core.Result:
             c_.update(norm=['zscore', 'zscore', 'linear(1, 300)'][k % 3], bounds='update', guess=['narrow', 'offset', 'narrower'][k % 3],
                       topo=['chain2', 'chain3', 'diamond', 'loop2'][k % 4])
             cases.append(c_)
+        for k in range(ctx.scale(2, 8)):      # feedback loops whose fixed coupling bounds do NOT contain the coupled solution
+            c_ = gen_case(ctx.rng)
+            c_.update(norm=[None, 'linear(0.5, 1)'][k % 2], bounds='fixed', guess=['narrower', 'offset'][k % 2], topo='loop2')
+            cases.append(c_)
         for k in range(ctx.scale(2, 8)):
             c_ = gen_case(ctx.rng)
             c_.update(norm=[None, 'linear(0.5, 1)'][k % 2], bounds='estimate-late', guess='wide', topo=['chain2', 'chain3', 'diamond', 'loop2'][k % 4])
